@@ -318,14 +318,15 @@ def _coded_then_plain(kind_i, p1, fr2, b2, cuts, raw2=False):
 
 
 # ---------------------------------------------------------------- content coding removed
-def _content_coding(kind_i, payload, framing, cuts, xname=False):
+def _content_coding(kind_i, payload, framing, cuts, xname=False, overrun=0):
     kind = pick(['gzip', 'zlib', 'raw'], kind_i)
     payload = fixlen(payload, 3)
     D.zlib = zmodel
     enc = zmodel.encode(kind, [payload])
     ce = (b'x-gzip' if xname else b'gzip') if kind == 'gzip' else b'deflate'
     if framing == 0:
-        wire = b'HTTP/1.1 200 OK\r\nContent-Encoding: ' + ce + b'\r\nContent-Length: ' + str(len(enc)).encode() + b'\r\n\r\n' + enc
+        # overrun: surplus bytes after the length-delimited body (e.g. a stray CRLF) - the coded body proper is still decoded in full
+        wire = b'HTTP/1.1 200 OK\r\nContent-Encoding: ' + ce + b'\r\nContent-Length: ' + str(len(enc)).encode() + b'\r\n\r\n' + enc + b'\r\n'[:realize_int(overrun, 0, 2)]
     elif framing == 1:
         wire = b'HTTP/1.1 200 OK\r\nContent-Encoding: ' + ce + b'\r\nTransfer-Encoding: chunked\r\n\r\n' + \
             ('%x' % len(enc)).encode() + b'\r\n' + enc + b'\r\n0\r\n\r\n'
@@ -429,12 +430,13 @@ HARNESSES = [
       funcs=['wpull/protocol/http/stream.py:Stream._setup_decompressor', 'wpull/protocol/http/stream.py:Stream.read_body'],
       doc='a gzip / deflate coded response followed by an identity response on the same Stream (keep-alive): the decoder of the first '
           'exchange is not applied to the second, whose symbolic body is delivered verbatim - also when the second is read with raw=True'),
-    H('content_coding', '_content_coding', 'kind_i: int, payload: bytes, framing: int, ' + _CUTS + ', xname: bool',
-      pre={'quick': ['0 <= kind_i <= 2 and len(payload) <= 1 and 0 <= framing <= 2 and len(cuts) <= 2'],
-           'thorough': ['0 <= kind_i <= 2 and len(payload) <= 3 and 0 <= framing <= 2 and len(cuts) <= 3']},
-      parts=[{'tag': 'k%d_f%d' % (k, f), 'fix': {'kind_i': str(k), 'framing': str(f), 'xname': 'False'}} for k in range(3) for f in range(3)]
-      + [{'tag': 'xgzip_f%d' % f, 'fix': {'kind_i': '0', 'framing': str(f), 'xname': 'True'}, 'pre': ['len(cuts) <= 1']} for f in range(3)],
-      timeout={'quick': 250, 'thorough': 1500}, samples=[(0, b'a', 0, [3], False), (2, b'ab', 1, [1, 1], False), (0, b'a', 0, [], True)], need=['decoded'],
+    H('content_coding', '_content_coding', 'kind_i: int, payload: bytes, framing: int, ' + _CUTS + ', xname: bool, overrun: int',
+      pre={'quick': ['0 <= kind_i <= 2 and len(payload) <= 1 and 0 <= framing <= 2 and len(cuts) <= 2 and 0 <= overrun <= 2'],
+           'thorough': ['0 <= kind_i <= 2 and len(payload) <= 3 and 0 <= framing <= 2 and len(cuts) <= 3 and 0 <= overrun <= 2']},
+      parts=[{'tag': 'k%d_f%d' % (k, f), 'fix': {'kind_i': str(k), 'framing': str(f), 'xname': 'False', 'overrun': '0'}} for k in range(3) for f in range(3)]
+      + [{'tag': 'k%d_overrun' % k, 'fix': {'kind_i': str(k), 'framing': '0', 'xname': 'False'}, 'pre': ['1 <= overrun <= 2 and len(cuts) <= 1']} for k in range(3)]
+      + [{'tag': 'xgzip_f%d' % f, 'fix': {'kind_i': '0', 'framing': str(f), 'xname': 'True', 'overrun': '0'}, 'pre': ['len(cuts) <= 1']} for f in range(3)],
+      timeout={'quick': 250, 'thorough': 1500}, samples=[(0, b'a', 0, [3], False, 0), (2, b'ab', 1, [1, 1], False, 0), (0, b'a', 0, [], True, 0), (1, b'a', 0, [], False, 2)], need=['decoded'],
       funcs=['wpull/protocol/http/stream.py:Stream._setup_decompressor', 'wpull/protocol/http/stream.py:Stream._decompress_data'],
       doc='gzip / x-gzip / deflate content codings (zlib model, stored block) are removed from the body under all three framings and symbolic cuts'),
 ]
